@@ -8,21 +8,23 @@ Import ListNotations.
 Local Open Scope Z_scope.
 
 Section HonestRound.
-Variables (c : cfg) (sh : share) (role : N) (h ld v fdlen : N).
+Variables (c : cfg) (sh : share) (role : N) (h rho ld v fdlen nrc : N).
 
-(* what a correct operator [s] broadcasts in round 1 of height [h]: type [t] in proposal / prepare / commit,
-   well-formed signature, its own id as the only signer, no justifications; the proposal carries the value *)
+(* what a correct operator [s] broadcasts in round [rho] of height [h]: type [t] in proposal / prepare / commit /
+   (unprepared) round change, well-formed signature, its own id as the only signer; the proposal carries the value
+   and, after the first round, [nrc] round changes as its justification *)
 Definition hmsg (t s : N) : cmsg :=
-  {| c_sig_len := signatureSize; c_sig_zero := false; c_type := t; c_height := h; c_round := firstRound;
+  {| c_sig_len := signatureSize; c_sig_zero := false; c_type := t; c_height := h; c_round := rho;
      c_signers := [s]; c_fd_len := if N.eqb t qbftProposalMsgType then fdlen else 0%N;
      c_fd_id := if N.eqb t qbftProposalMsgType then v else 0%N;
      c_root_ok := N.eqb t qbftProposalMsgType;      (* only read for messages that carry data *)
-     c_pj_ok := true; c_pj_len := 0; c_rcj_ok := true; c_rcj_len := 0;
+     c_pj_ok := true; c_pj_len := 0; c_rcj_ok := true;
+     c_rcj_len := if N.eqb t qbftProposalMsgType then nrc else 0%N;
      c_just_ok := true; c_duty_ok := true |}.
 
 Definition honest_item (x : N * N) : Prop :=
   let '(t, s) := x in
-  (t = qbftProposalMsgType \/ t = qbftPrepareMsgType \/ t = qbftCommitMsgType) /\
+  (t = qbftProposalMsgType \/ t = qbftPrepareMsgType \/ t = qbftCommitMsgType \/ t = qbftRoundChangeMsgType) /\
   s <> 0%N /\ in_committee s sh = true /\ (t = qbftProposalMsgType -> s = ld).
 
 Definition cnt (sent : list (N * N)) (t s : N) : Z :=
@@ -44,17 +46,24 @@ Proof.
   destruct (N.eqb_spec t' t); destruct (N.eqb_spec s' s); simpl; try reflexivity. subst. contradiction.
 Qed.
 
-(* the state of signer [s] after the messages of [sent] *)
+(* the state of signer [s] after the messages of [sent]: nothing yet and no state, or nothing yet and a state left
+   by an EARLIER round of this duty (whatever was counted there), or the exact account of what [s] sent in [rho] *)
+Definition current (sent : list (N * N)) (s : N) (ss : sstate) : Prop :=
+  ss_slot ss = h /\ ss_round ss = rho /\
+  n_proposal (ss_counts ss) = cnt sent qbftProposalMsgType s /\
+  n_prepare (ss_counts ss) = cnt sent qbftPrepareMsgType s /\
+  n_commit (ss_counts ss) = cnt sent qbftCommitMsgType s /\
+  n_rc (ss_counts ss) = cnt sent qbftRoundChangeMsgType s /\
+  0 <= ss_duties ss <= 1 /\
+  (ss_pdata ss = None \/ ss_pdata ss = Some v).
+
+Definition earlier_round (ss : sstate) : Prop :=
+  ss_slot ss = h /\ (ss_round ss < rho)%N /\ 0 <= ss_duties ss <= 1.
+
 Definition sinv (sent : list (N * N)) (s : N) (o : option sstate) : Prop :=
   match o with
   | None => forall t, ~ In (t, s) sent
-  | Some ss =>
-      ss_slot ss = h /\ ss_round ss = firstRound /\
-      n_proposal (ss_counts ss) = cnt sent qbftProposalMsgType s /\
-      n_prepare (ss_counts ss) = cnt sent qbftPrepareMsgType s /\
-      n_commit (ss_counts ss) = cnt sent qbftCommitMsgType s /\
-      0 <= ss_duties ss <= 1 /\
-      (ss_pdata ss = None \/ ss_pdata ss = Some v)
+  | Some ss => current sent s ss \/ (earlier_round ss /\ forall t, ~ In (t, s) sent)
   end.
 
 Definition inv (sent : list (N * N)) (cs : cstate) : Prop := forall s, sinv sent s (get_signer s cs).
@@ -62,25 +71,27 @@ Definition inv (sent : list (N * N)) (cs : cstate) : Prop := forall s, sinv sent
 Hypothesis Hrole : (N.eqb role roleValidatorRegistration || N.eqb role roleVoluntaryExit) = false.
 Hypothesis Hvalid : valid_role role = true.
 Hypothesis Hmeta : s_has_meta sh = true.
-Hypothesis Hleader : round_robin (s_committee sh) h firstRound = LeaderIs ld.
-Hypothesis Hrr : rr_defined sh h firstRound = true.
+Hypothesis Hleader : round_robin (s_committee sh) h rho = LeaderIs ld.
+Hypothesis Hrr : rr_defined sh h rho = true.
 Hypothesis Hfd : fdlen <> 0%N.
+Hypothesis Hrho1 : (firstRound <= rho)%N.
+Hypothesis Hrho6 : (rho <= 6)%N.
 
-Lemma max_round_ok : exists mr, max_round role = Some mr /\ (mr <? firstRound)%N = false.
+Lemma max_round_ok : exists mr, max_round role = Some mr /\ (mr <? rho)%N = false.
 Proof.
   pose proof Hvalid as Hv. pose proof Hrole as Hr. revert Hv Hr. generalize role. intros r Hv Hr.
   unfold valid_role in Hv.
   repeat (apply orb_prop in Hv; destruct Hv as [Hv|Hv]);
-    apply N.eqb_eq in Hv; subst r; try (vm_compute; eexists; split; reflexivity);
-    vm_compute in Hr; discriminate.
+    apply N.eqb_eq in Hv; subst r; try (vm_compute in Hr; discriminate);
+    (eexists; split; [vm_compute; reflexivity|apply N.ltb_ge; lia]).
 Qed.
 
 Lemma hmsg_signers_ok : forall t s, honest_item (t, s) -> valid_consensus_signers sh (hmsg t s) = None.
 Proof.
   intros t s (Ht & Hs & Hin & Hl). unfold valid_consensus_signers. cbn [hmsg c_signers c_type c_height c_round].
   assert (E1 : (if N.eqb t qbftProposalMsgType
-                then if negb (rr_defined sh h firstRound) then Some (fail ErrSignerNotLeader)
-                     else match round_robin (s_committee sh) h firstRound with
+                then if negb (rr_defined sh h rho) then Some (fail ErrSignerNotLeader)
+                     else match round_robin (s_committee sh) h rho with
                           | LeaderPanic p => Some (Panic p)
                           | LeaderIs l => if N.eqb s l then None else Some (fail ErrSignerNotLeader)
                           end
@@ -93,10 +104,15 @@ Proof.
 Qed.
 
 Lemma hmsg_just_ok : forall t s, validate_justifications (hmsg t s) = None.
-Proof. intros. unfold validate_justifications. cbn. rewrite !andb_false_r. reflexivity. Qed.
+Proof.
+  intros. unfold validate_justifications. cbn [hmsg c_pj_ok c_pj_len c_rcj_ok c_rcj_len c_type c_just_ok negb N.eqb].
+  cbn [andb]. destruct (N.eqb t qbftProposalMsgType); cbn [negb andb].
+  - rewrite andb_false_r. reflexivity.
+  - reflexivity.
+Qed.
 
 Lemma hmsg_type_ok : forall t s, honest_item (t, s) -> valid_qbft_type t = true.
-Proof. intros t s ([->|[->| ->]] & _); reflexivity. Qed.
+Proof. intros t s ([->|[->|[->| ->]]] & _); reflexivity. Qed.
 
 Lemma duty_ok : validate_beacon_duty role sh true = None.
 Proof.
@@ -108,11 +124,61 @@ Qed.
 Lemma hmsg_full_data : forall t s, honest_item (t, s) ->
   has_full_data (hmsg t s) = N.eqb t qbftProposalMsgType.
 Proof.
-  intros t s ([->|[->| ->]] & _); unfold has_full_data, is_decided; cbn; [|reflexivity|reflexivity].
+  intros t s ([->|[->|[->| ->]]] & _); unfold has_full_data, is_decided; cbn; try reflexivity.
   destruct (N.eqb_spec fdlen 0); [contradiction|reflexivity].
 Qed.
 
 (* the per-signer check and update *)
+Lemma hmsg_record : forall t s cn, honest_item (t, s) ->
+  exists cn', counts_record cn (hmsg t s) = inl cn' /\
+    n_proposal cn' = n_proposal cn + (if N.eqb t qbftProposalMsgType then 1 else 0) /\
+    n_prepare cn' = n_prepare cn + (if N.eqb t qbftPrepareMsgType then 1 else 0) /\
+    n_commit cn' = n_commit cn + (if N.eqb t qbftCommitMsgType then 1 else 0) /\
+    n_rc cn' = n_rc cn + (if N.eqb t qbftRoundChangeMsgType then 1 else 0).
+Proof.
+  intros t s cn ([->|[->|[->| ->]]] & _); unfold counts_record; cbn;
+    eexists; (split; [reflexivity|]); cbn; lia.
+Qed.
+
+(* the state a first message of round [rho] leaves: counters and proposal data start from nothing *)
+Lemma first_message_state : forall sent t s ss1 cn',
+  honest_item (t, s) -> (forall t', ~ In (t', s) sent) ->
+  ss_slot ss1 = h -> ss_round ss1 = rho -> ss_counts ss1 = zero_counts -> ss_pdata ss1 = None ->
+  0 <= ss_duties ss1 <= 1 ->
+  counts_record (ss_counts ss1) (hmsg t s) = inl cn' ->
+  current ((t, s) :: sent) s
+    {| ss_slot := ss_slot ss1; ss_round := ss_round ss1; ss_counts := cn';
+       ss_pdata := if has_full_data (hmsg t s)
+                   then match ss_pdata ss1 with None => Some (c_fd_id (hmsg t s)) | Some d => Some d end
+                   else ss_pdata ss1;
+       ss_duties := ss_duties ss1 |}.
+Proof.
+  intros sent t s ss1 cn' Hh Hnone A1 A2 A3 A4 A5 Er.
+  destruct (hmsg_record t s (ss_counts ss1) Hh) as (cn2 & Er2 & R1 & R2 & R3 & R4).
+  rewrite Er in Er2. inversion Er2; subst cn2. clear Er2.
+  assert (Hz : forall t', cnt sent t' s = 0) by (intros t'; apply cnt_not_in; apply Hnone).
+  assert (Hcases : forall t', (if N.eqb t t' then 1 else 0) + cnt sent t' s = cnt ((t, s) :: sent) t' s).
+  { intros t'. destruct (N.eqb_spec t t') as [<-|E].
+    - rewrite cnt_cons_same, Hz. reflexivity.
+    - rewrite cnt_cons_other by congruence. lia. }
+  unfold current. cbn [ss_slot ss_round ss_counts ss_duties ss_pdata].
+  rewrite R1, R2, R3, R4, A3. cbn [zero_counts n_proposal n_prepare n_commit n_rc].
+  rewrite <- !Hcases, !Hz.
+  repeat split; try lia; try assumption.
+  rewrite A4, (hmsg_full_data t s Hh). destruct (N.eqb t qbftProposalMsgType) eqn:Et; [right|left]; [|reflexivity].
+  cbn [hmsg c_fd_id]. rewrite Et. reflexivity.
+Qed.
+
+Lemma duty_count_ok : forall ss b, 0 <= ss_duties ss <= 1 -> validate_duty_count ss role b = None.
+Proof.
+  intros ss b Hdu. unfold validate_duty_count.
+  destruct (N.eqb role roleAttester || N.eqb role roleAggregator ||
+            N.eqb role roleValidatorRegistration || N.eqb role roleVoluntaryExit); [|reflexivity].
+  unfold maxDutiesPerEpoch. destruct b.
+  - destruct (Z.geb_spec (ss_duties ss) 2); [lia|reflexivity].
+  - destruct (Z.geb_spec (ss_duties ss) (2 + 1)); [lia|reflexivity].
+Qed.
+
 Lemma signer_step : forall sent cs t s,
   inv sent cs -> honest_item (t, s) -> ~ In (t, s) sent ->
   signer_behavior c sh role (hmsg t s) cs s = None /\
@@ -120,78 +186,75 @@ Lemma signer_step : forall sent cs t s,
 Proof.
   intros sent cs t s I Hh Hn. pose proof (I s) as Is. unfold sinv in Is.
   pose proof (hmsg_full_data t s Hh) as Hfdm.
-  assert (Hrec : forall cn, exists cn', counts_record cn (hmsg t s) = inl cn' /\
-            n_proposal cn' = n_proposal cn + (if N.eqb t qbftProposalMsgType then 1 else 0) /\
-            n_prepare cn' = n_prepare cn + (if N.eqb t qbftPrepareMsgType then 1 else 0) /\
-            n_commit cn' = n_commit cn + (if N.eqb t qbftCommitMsgType then 1 else 0)).
-  { intros cn. destruct Hh as ([->|[->| ->]] & _); unfold counts_record; cbn;
-      eexists; (split; [reflexivity|]); cbn; lia. }
-  assert (Hother : forall cs' ss', cs' = set_signer s ss' cs -> sinv ((t, s) :: sent) s (Some ss') ->
+  assert (Hother : forall cs' ss', cs' = set_signer s ss' cs -> current ((t, s) :: sent) s ss' ->
             inv ((t, s) :: sent) cs').
   { intros cs' ss' -> Hs s'. destruct (N.eq_dec s' s) as [->|Hne].
-    - rewrite get_signer_set_same. exact Hs.
-    - rewrite get_signer_set_other by exact Hne. pose proof (I s') as Is'. unfold sinv in *.
+    - rewrite get_signer_set_same. left. exact Hs.
+    - rewrite get_signer_set_other by exact Hne. pose proof (I s') as Is'. unfold sinv, current in *.
       destruct (get_signer s' cs) as [ss2|].
-      + rewrite !cnt_cons_other by congruence. exact Is'.
+      + destruct Is' as [Is'|[Is' Hno]].
+        * left. rewrite !cnt_cons_other by congruence. exact Is'.
+        * right. split; [exact Is'|]. intros t' [E|E]; [congruence|]. exact (Hno t' E).
       + intros t' [E|E]; [congruence|]. exact (Is' t' E). }
-  assert (Hcases : forall t', (if N.eqb t t' then 1 else 0) + cnt sent t' s = cnt ((t, s) :: sent) t' s).
-  { intros t'. destruct (N.eqb_spec t t') as [<-|E].
-    - rewrite cnt_cons_same, cnt_not_in by exact Hn. reflexivity.
-    - rewrite cnt_cons_other by congruence. lia. }
   unfold signer_behavior, update_signer, next_sstate.
   destruct (get_signer s cs) as [ss|] eqn:Eg.
-  - destruct Is as (Hsl & Hrd & Hp & Hpr & Hcm & Hdu & Hpd).
-    cbn [hmsg c_height c_round]. rewrite Hsl, Hrd, N.ltb_irrefl, N.eqb_refl. cbn [andb].
-    rewrite N.ltb_irrefl. cbn [andb].
-    assert (Hdc : validate_duty_count ss role false = None).
-    { unfold validate_duty_count.
-      destruct (N.eqb role roleAttester || N.eqb role roleAggregator ||
-                N.eqb role roleValidatorRegistration || N.eqb role roleVoluntaryExit); [|reflexivity].
-      unfold maxDutiesPerEpoch. destruct (Z.geb_spec (ss_duties ss) (2 + 1)); [lia|reflexivity]. }
-    rewrite Hdc.
-    assert (Hcv : counts_validate (ss_counts ss) (hmsg t s) (length (s_committee sh)) = None).
-    { destruct Hh as ([->|[->| ->]] & _); unfold counts_validate; cbn.
-      - rewrite Hp, cnt_not_in by exact Hn. reflexivity.
-      - rewrite Hpr, cnt_not_in by exact Hn. reflexivity.
-      - rewrite Hcm, cnt_not_in by exact Hn. reflexivity. }
-    assert (Hpdm : (has_full_data (hmsg t s) &&
-              match ss_pdata ss with Some d => negb (N.eqb d (c_fd_id (hmsg t s))) | None => false end) = false).
-    { rewrite Hfdm. destruct Hpd as [-> | ->]; [apply andb_false_r|]. cbn [hmsg c_fd_id].
-      destruct (N.eqb t qbftProposalMsgType) eqn:Et; [rewrite N.eqb_refl|]; reflexivity. }
-    rewrite Hpdm, Hcv, hmsg_just_ok. split; [reflexivity|].
-    destruct (Hrec (ss_counts ss)) as (cn' & Er & R1 & R2 & R3). rewrite Er.
-    eexists. split; [reflexivity|]. eapply Hother; [reflexivity|].
-    unfold sinv. cbn [ss_slot ss_round ss_counts ss_duties ss_pdata].
-    rewrite R1, R2, R3, Hp, Hpr, Hcm.
-    rewrite <- !Hcases. repeat split; try lia; try assumption.
-    rewrite Hfdm. destruct (N.eqb t qbftProposalMsgType) eqn:Et; [|exact Hpd].
-    destruct Hpd as [-> | ->]; right; cbn [hmsg c_fd_id]; rewrite ?Et; reflexivity.
+  - destruct Is as [(Hsl & Hrd & Hp & Hpr & Hcm & Hrc & Hdu & Hpd)|[(Hsl & Hrd & Hdu) Hnone]].
+    + (* the signer is already in round rho *)
+      cbn [hmsg c_height c_round]. rewrite Hsl, Hrd, !N.ltb_irrefl, !N.eqb_refl. cbn [andb].
+      rewrite (duty_count_ok ss false Hdu).
+      assert (Hcv : counts_validate (ss_counts ss) (hmsg t s) (length (s_committee sh)) = None).
+      { destruct Hh as ([->|[->|[->| ->]]] & _); unfold counts_validate; cbn.
+        - rewrite Hp, cnt_not_in by exact Hn. reflexivity.
+        - rewrite Hpr, cnt_not_in by exact Hn. reflexivity.
+        - rewrite Hcm, cnt_not_in by exact Hn. reflexivity.
+        - rewrite Hrc, cnt_not_in by exact Hn. reflexivity. }
+      assert (Hpdm : (has_full_data (hmsg t s) &&
+                match ss_pdata ss with Some d => negb (N.eqb d (c_fd_id (hmsg t s))) | None => false end) = false).
+      { rewrite Hfdm. destruct Hpd as [-> | ->]; [apply andb_false_r|]. cbn [hmsg c_fd_id].
+        destruct (N.eqb t qbftProposalMsgType) eqn:Et; [rewrite N.eqb_refl|]; reflexivity. }
+      rewrite Hpdm, Hcv, hmsg_just_ok. split; [reflexivity|].
+      destruct (hmsg_record t s (ss_counts ss) Hh) as (cn' & Er & R1 & R2 & R3 & R4). rewrite Er.
+      eexists. split; [reflexivity|]. eapply Hother; [reflexivity|].
+      assert (Hcases : forall t', (if N.eqb t t' then 1 else 0) + cnt sent t' s = cnt ((t, s) :: sent) t' s).
+      { intros t'. destruct (N.eqb_spec t t') as [<-|E].
+        - rewrite cnt_cons_same, cnt_not_in by exact Hn. reflexivity.
+        - rewrite cnt_cons_other by congruence. lia. }
+      unfold current. cbn [ss_slot ss_round ss_counts ss_duties ss_pdata].
+      rewrite R1, R2, R3, R4, Hp, Hpr, Hcm, Hrc.
+      rewrite <- !Hcases. repeat split; try lia; try assumption.
+      rewrite Hfdm. destruct (N.eqb t qbftProposalMsgType) eqn:Et; [|exact Hpd].
+      destruct Hpd as [-> | ->]; right; cbn [hmsg c_fd_id]; rewrite ?Et; reflexivity.
+    + (* the signer's state is from an earlier round of this duty: the round is reset *)
+      cbn [hmsg c_height c_round]. rewrite Hsl, N.ltb_irrefl, N.eqb_refl. cbn [andb].
+      assert (E1 : (rho <? ss_round ss)%N = false) by (apply N.ltb_ge; lia).
+      assert (E2 : N.eqb rho (ss_round ss) = false) by (apply N.eqb_neq; lia).
+      assert (E3 : (ss_round ss <? rho)%N = true) by (apply N.ltb_lt; lia).
+      rewrite E1, E2, E3, (duty_count_ok ss false Hdu), hmsg_just_ok. split; [reflexivity|].
+      set (ss1 := reset_round ss rho).
+      destruct (hmsg_record t s (ss_counts ss1) Hh) as (cn' & Er & _). rewrite Er.
+      eexists. split; [reflexivity|]. eapply Hother; [reflexivity|].
+      apply (first_message_state sent t s ss1 cn' Hh Hnone); try reflexivity; try exact Er; cbn; assumption.
   - rewrite hmsg_just_ok. split; [reflexivity|].
     cbn [hmsg c_height c_round new_sstate ss_slot ss_round].
-    set (ss1 := if (0 <? h)%N then reset_slot new_sstate h firstRound (epoch_at c 0 <? epoch_at c h)%N
-                else if N.eqb h 0 && (0 <? firstRound)%N then reset_round new_sstate firstRound else new_sstate).
-    assert (H1 : ss_slot ss1 = h /\ ss_round ss1 = firstRound /\ ss_counts ss1 = zero_counts /\
+    set (ss1 := if (0 <? h)%N then reset_slot new_sstate h rho (epoch_at c 0 <? epoch_at c h)%N
+                else if N.eqb h 0 && (0 <? rho)%N then reset_round new_sstate rho else new_sstate).
+    assert (H1 : ss_slot ss1 = h /\ ss_round ss1 = rho /\ ss_counts ss1 = zero_counts /\
                  ss_pdata ss1 = None /\ 0 <= ss_duties ss1 <= 1).
     { unfold ss1. destruct (N.ltb_spec 0 h) as [Hl|Hl].
       - cbn. destruct (_ <? _)%N; repeat split; lia.
-      - assert (E : h = 0%N) by lia. rewrite E. cbn. repeat split; lia. }
+      - assert (E : h = 0%N) by lia. rewrite E.
+        assert (E3 : (0 <? rho)%N = true) by (apply N.ltb_lt; unfold firstRound in Hrho1; lia).
+        rewrite E3. cbn. repeat split; lia. }
     destruct H1 as (A1 & A2 & A3 & A4 & A5).
-    destruct (Hrec (ss_counts ss1)) as (cn' & Er & R1 & R2 & R3).
-    change (counts_record (ss_counts ss1) (hmsg t s)) with (counts_record (ss_counts ss1) (hmsg t s)).
+    destruct (hmsg_record t s (ss_counts ss1) Hh) as (cn' & Er & _).
     fold ss1. rewrite Er. eexists. split; [reflexivity|]. eapply Hother; [reflexivity|].
-    unfold sinv. cbn [ss_slot ss_round ss_counts ss_duties ss_pdata].
-    rewrite R1, R2, R3, A3. cbn [zero_counts n_proposal n_prepare n_commit].
-    assert (Hz : forall t', cnt sent t' s = 0) by (intros t'; apply cnt_not_in; apply Is).
-    rewrite <- !Hcases, !Hz.
-    repeat split; try lia; try assumption.
-    rewrite A4, Hfdm. destruct (N.eqb t qbftProposalMsgType) eqn:Et; [right|left]; [|reflexivity].
-    cbn [hmsg c_fd_id]. rewrite Et. reflexivity.
+    apply (first_message_state sent t s ss1 cn' Hh Is A1 A2 A3 A4 A5 Er).
 Qed.
 
 (* one message through validateConsensusMessage *)
 Theorem honest_message_accepted : forall recv verifier sent cs t s,
   validate_slot_time c h role recv = None ->
-  ((addw (estimated_round c h recv) allowedRoundsInFuture <? firstRound)%N = false) ->
+  ((addw (estimated_round c h recv) allowedRoundsInFuture <? rho)%N = false) ->
   run_verifier verifier = None ->
   inv sent cs -> honest_item (t, s) -> ~ In (t, s) sent ->
   exists cs', validate_consensus c sh role (hmsg t s) recv verifier cs = (Accept, cs') /\
@@ -205,8 +268,9 @@ Proof.
   unfold sig_format. rewrite N.eqb_refl. cbn [negb].
   change (c_type (hmsg t s)) with t. rewrite (hmsg_type_ok t s Hh). cbn [negb].
   rewrite (hmsg_signers_ok t s Hh).
-  change (c_height (hmsg t s)) with h. change (c_round (hmsg t s)) with firstRound.
-  rewrite Htime, Hmr, Hmr1, N.ltb_irrefl, Hround. cbn [orb].
+  change (c_height (hmsg t s)) with h. change (c_round (hmsg t s)) with rho.
+  assert (E0 : (rho <? firstRound)%N = false) by (apply N.ltb_ge; exact Hrho1).
+  rewrite Htime, Hmr, Hmr1, E0, Hround. cbn [orb].
   rewrite (hmsg_full_data t s Hh). change (c_root_ok (hmsg t s)) with (N.eqb t qbftProposalMsgType).
   rewrite andb_negb_r.
   change (c_duty_ok (hmsg t s)) with true. rewrite duty_ok.
@@ -227,7 +291,7 @@ Fixpoint run_honest (cs : cstate) (l : list (gotime * (N * N))) : list result * 
 
 Definition timely (recv : gotime) : Prop :=
   validate_slot_time c h role recv = None /\
-  (addw (estimated_round c h recv) allowedRoundsInFuture <? firstRound)%N = false.
+  (addw (estimated_round c h recv) allowedRoundsInFuture <? rho)%N = false.
 
 Lemma run_honest_accepts : forall l sent cs,
   inv sent cs -> NoDup (map snd l) -> (forall x, In x l -> ~ In (snd x) sent) ->
@@ -247,16 +311,26 @@ Proof.
   - eapply Hfresh; [right; exact Hx|exact E].
 Qed.
 
-(* C10, second sentence, at the gate: from a validator that has seen nothing of this duty, the proposal of the
-   leader and the prepares and commits of any operators - each at most once, in ANY order, each validated
-   inside its window - are all accepted. *)
+(* C10, second sentence, at the gate: from a validator that has seen nothing of this duty, or only earlier rounds
+   of it, the proposal of the round's leader and the prepares, commits and (unprepared) round changes of any
+   operators for round [rho] - each at most once, in ANY order, each validated inside its window - are all accepted. *)
+Definition before_round (cs : cstate) : Prop :=
+  forall s, match get_signer s cs with None => True | Some ss => earlier_round ss end.
+
+Lemma before_round_inv : forall cs, before_round cs -> inv [] cs.
+Proof.
+  intros cs H s. specialize (H s). unfold sinv. destruct (get_signer s cs) as [ss|].
+  - right. split; [exact H|]. intros t [].
+  - intros t [].
+Qed.
+
 Theorem honest_round_accepted : forall l cs,
-  (forall s, get_signer s cs = None) ->
+  before_round cs ->
   NoDup (map snd l) -> Forall (fun x => honest_item (snd x) /\ timely (fst x)) l ->
   Forall (eq Accept) (fst (run_honest cs l)).
 Proof.
   intros l cs Hfresh Hnd Hall. apply (run_honest_accepts l [] cs); auto.
-  intros s. rewrite Hfresh. intros t [].
+  apply before_round_inv. exact Hfresh.
 Qed.
 
 End HonestRound.
